@@ -41,7 +41,7 @@ Proof. exact rewrap_cuts_chain. Qed.
 
 (* the chain evaluator used by the correspondence accepts only shapes of derivable error values *)
 Theorem C13_observed_shape_derivable :
-  forall fuel i sh, produces err_table fuel i sh = true -> exists e, derives err_table i e /\ shape_of e = sh.
+  forall i sh, produces err_table i sh = true -> exists e, derives err_table i e /\ shape_of e = sh.
 Proof. exact (produces_sound err_table). Qed.
 
 (* the hypotheses are satisfiable by a non-trivial table: a wrapper entry point over a tokenizer and a parser *)
